@@ -15,6 +15,7 @@ import (
 	"context"
 	"errors"
 	"fmt"
+	"os"
 	"runtime"
 	"slices"
 	"sort"
@@ -43,6 +44,15 @@ const (
 	// c20Watchdog bounds waits for the next step of the subscription loop that the model
 	// predicts (take the offered header, start / retry the retrieval, queue the response).
 	c20Watchdog = 20 * time.Second
+)
+
+// Signatures of the two shapes this check found on the pinned tree (see TestVerifC20_Witnesses).
+const (
+	// after Service.Stop the retry loop keeps retrying a failing retrieval: the stream never ends
+	c20SigStop = "C20:retry-loop-ignores-service-stop"
+	// a retrieval failing with an error that wraps shwap.ErrNotFound ("data not found") is not
+	// retried: the height is emitted as a response without blobs
+	c20SigNotFound = "C20:data-not-found-emitted-as-empty-response"
 )
 
 type c20SubKey struct{}
@@ -615,12 +625,50 @@ func (m *c20Machine) teardown() {
 	m.wg.Wait()
 }
 
+func c20NewMachine() *c20Machine {
+	return &c20Machine{heights: map[uint64]*c11Block{}, done: make(chan struct{}), labels: map[string]bool{}}
+}
+
+func (m *c20Machine) start() error {
+	m.svc = NewService(nil, &c20Getter{m: m}, m.headerGetter, m.headerSub)
+	if err := m.svc.Start(context.Background()); err != nil {
+		return fmt.Errorf("VERIF-INFRA: Start: %w", err)
+	}
+	return nil
+}
+
+// stop is the stopService action: Stop, then every live stream has to end while parked
+// retrievals are answered with `failures` errors (forever: only errors) and then data.
+func (m *c20Machine) stop(failures int, forever bool) error {
+	m.logf("stop(failures=%d,forever=%v)", failures, forever)
+	m.stopped = true
+	for _, s := range m.live() {
+		if s.cur != nil {
+			m.label("stop-while-parked")
+			if forever || failures > 0 {
+				m.label("stop-while-failing")
+			}
+		} else {
+			m.label("stop-while-idle")
+		}
+	}
+	if err := m.svc.Stop(context.Background()); err != nil {
+		return fmt.Errorf("VERIF-INFRA: Stop: %w", err)
+	}
+	for _, s := range m.live() {
+		if err := m.finalize(s, "stop", failures, forever); err != nil {
+			return err
+		}
+	}
+	return nil
+}
+
 // TestVerifC20_Machine is the state machine.
 func TestVerifC20_Machine(t *testing.T) {
 	defer vk.Flush()
 	opts := c11BlockOpts{MaxBlobs: 5, MaxShares: 48, MaxNS: 3}
 	rapid.Check(t, func(t *rapid.T) {
-		m := &c20Machine{heights: map[uint64]*c11Block{}, done: make(chan struct{}), labels: map[string]bool{}}
+		m := c20NewMachine()
 		defer m.teardown()
 		fatal := func(err error) {
 			if err != nil {
@@ -636,20 +684,12 @@ func TestVerifC20_Machine(t *testing.T) {
 			m.pool = append(m.pool, c11GenBlock(t, fmt.Sprintf("blk%d", i), o))
 		}
 		m.next = uint64(rapid.SampledFrom([]int{0, 1, 41, 99999}).Draw(t, "base"))
-		m.svc = NewService(nil, &c20Getter{m: m}, m.headerGetter, m.headerSub)
-		if err := m.svc.Start(context.Background()); err != nil {
-			t.Fatalf("VERIF-INFRA: Start: %v", err)
+		if err := m.start(); err != nil {
+			t.Fatalf("%v", err)
 		}
 		nsPerm := rapid.Permutation([]int{0, 1, 2, 3, 4, 5}).Draw(t, "subns")
 		fatal(m.subscribe(nsPerm[0]))
 
-		pick := func(t *rapid.T) *c20Sub {
-			l := m.live()
-			if len(l) == 0 {
-				t.Skip("no live subscription")
-			}
-			return l[rapid.IntRange(0, len(l)-1).Draw(t, "sub")]
-		}
 		plan := func(t *rapid.T, allowForever bool) (int, bool) {
 			k := rapid.IntRange(0, 4).Draw(t, "failuresAfter")
 			if allowForever && k == 4 {
@@ -664,37 +704,54 @@ func TestVerifC20_Machine(t *testing.T) {
 			fatal(m.offer(rapid.IntRange(0, len(m.pool)-1).Draw(t, "blk")))
 		}
 
-		t.Repeat(map[string]func(*rapid.T){
-			"offerHeader": func(t *rapid.T) {
-				if len(m.live()) == 0 {
-					t.Skip("no live subscription")
+		// One action kind per step, drawn among the kinds that are possible in the current state,
+		// weighted so that subscriptions live long enough to see failures and slow readers.
+		type act struct {
+			name   string
+			weight int
+			ok     func() bool
+			run    func(t *rapid.T)
+		}
+		anyLive := func() bool { return len(m.live()) > 0 }
+		with := func(pred func(*c20Sub) bool) []*c20Sub {
+			var out []*c20Sub
+			for _, s := range m.live() {
+				if pred(s) {
+					out = append(out, s)
 				}
-				offerOne(t)
-			},
-			"releaseRetrieval": func(t *rapid.T) {
-				s := pick(t)
-				if s.cur == nil {
-					t.Skip("nothing parked")
-				}
+			}
+			return out
+		}
+		pickOf := func(t *rapid.T, l []*c20Sub) *c20Sub {
+			return l[rapid.IntRange(0, len(l)-1).Draw(t, "sub")]
+		}
+		parked := func(s *c20Sub) bool { return s.cur != nil }
+		hasUnread := func(s *c20Sub) bool { return s.unread() > 0 }
+		all := func(*c20Sub) bool { return true }
+		acts := []act{
+			{"offerHeader", 8, anyLive, func(t *rapid.T) { offerOne(t) }},
+			{"releaseRetrieval", 10, func() bool { return len(with(parked)) > 0 }, func(t *rapid.T) {
+				s := pickOf(t, with(parked))
 				kind := "ok"
 				if rapid.IntRange(0, 2).Draw(t, "fail") == 0 {
 					kind = rapid.SampledFrom(c20ErrKinds).Draw(t, "errkind")
+					if kind == "notfound" && vk.KnownOpen(c20SigNotFound) {
+						vk.Excluded(c20SigNotFound)
+						kind = "transient"
+					}
 				}
 				fatal(m.release(s, kind))
-			},
-			"consume": func(t *rapid.T) {
-				s := pick(t)
-				if s.unread() == 0 {
-					t.Skip("nothing unread")
+			}},
+			{"consume", 5, func() bool { return len(with(hasUnread)) > 0 }, func(t *rapid.T) {
+				s := pickOf(t, with(hasUnread))
+				k := s.unread()
+				if rapid.Bool().Draw(t, "some") {
+					k = rapid.IntRange(1, s.unread()).Draw(t, "k")
 				}
-				k := rapid.IntRange(1, s.unread()).Draw(t, "k")
 				fatal(m.consume(s, k))
-			},
+			}},
 			// a reader that does not read: headers keep coming and retrievals succeed
-			"stalledReader": func(t *rapid.T) {
-				if len(m.live()) == 0 {
-					t.Skip("no live subscription")
-				}
+			{"stalledReader", 1, anyLive, func(t *rapid.T) {
 				n := rapid.IntRange(2, 20).Draw(t, "n")
 				m.logf("stalledReader(%d)", n)
 				for i := 0; i < n && len(m.live()) > 0; i++ {
@@ -705,9 +762,9 @@ func TestVerifC20_Machine(t *testing.T) {
 						}
 					}
 				}
-			},
-			"cancelSubscriber": func(t *rapid.T) {
-				s := pick(t)
+			}},
+			{"cancelSubscriber", 1, anyLive, func(t *rapid.T) {
+				s := pickOf(t, with(all))
 				if s.cur != nil {
 					m.label("cancel-while-parked")
 				}
@@ -717,33 +774,17 @@ func TestVerifC20_Machine(t *testing.T) {
 				m.logf("cancel#%d", s.id)
 				s.cancel()
 				fatal(m.finalize(s, "cancel", 0, false))
-			},
-			"stopService": func(t *rapid.T) {
-				if m.stopped || len(m.live()) == 0 {
-					t.Skip("stopped")
-				}
+			}},
+			{"stopService", 1, func() bool { return !m.stopped && anyLive() }, func(t *rapid.T) {
 				failures, forever := plan(t, true)
-				m.logf("stop(failures=%d,forever=%v)", failures, forever)
-				m.stopped = true
-				for _, s := range m.live() {
-					if s.cur != nil {
-						m.label("stop-while-parked")
-						if forever || failures > 0 {
-							m.label("stop-while-failing")
-						}
-					} else {
-						m.label("stop-while-idle")
-					}
+				if forever && vk.KnownOpen(c20SigStop) && len(with(parked)) > 0 {
+					vk.Excluded(c20SigStop)
+					forever = false
 				}
-				if err := m.svc.Stop(context.Background()); err != nil {
-					t.Fatalf("VERIF-INFRA: Stop: %v", err)
-				}
-				for _, s := range m.live() {
-					fatal(m.finalize(s, "stop", failures, forever))
-				}
-			},
-			"closeFeed": func(t *rapid.T) {
-				s := pick(t)
+				fatal(m.stop(failures, forever))
+			}},
+			{"closeFeed", 1, anyLive, func(t *rapid.T) {
+				s := pickOf(t, with(all))
 				failures, _ := plan(t, false)
 				if s.cur != nil {
 					m.label("feedclose-while-parked")
@@ -753,15 +794,33 @@ func TestVerifC20_Machine(t *testing.T) {
 				m.logf("closeFeed#%d(failures=%d)", s.id, failures)
 				s.feed.fail()
 				fatal(m.finalize(s, "feed closed", failures, false))
-			},
-			// nothing happens (always possible, also after everything has ended)
-			"idle": func(*rapid.T) {},
-			"startSecondSubscription": func(t *rapid.T) {
-				if m.stopped || len(m.subs) >= 3 {
-					t.Skip("enough subscriptions")
-				}
+			}},
+			{"startSecondSubscription", 2, func() bool { return !m.stopped && len(m.subs) < 5 && len(m.live()) < 3 }, func(t *rapid.T) {
 				fatal(m.subscribe(nsPerm[len(m.subs)]))
-				m.label("subscriptions=2+")
+				if len(m.live()) > 1 {
+					m.label("subscriptions=2+")
+				}
+			}},
+		}
+		t.Repeat(map[string]func(*rapid.T){
+			"step": func(t *rapid.T) {
+				var names []string
+				for _, a := range acts {
+					if a.ok() {
+						for i := 0; i < a.weight; i++ {
+							names = append(names, a.name)
+						}
+					}
+				}
+				if len(names) == 0 {
+					return // the service was stopped: nothing can happen any more
+				}
+				name := rapid.SampledFrom(names).Draw(t, "action")
+				for _, a := range acts {
+					if a.name == name {
+						a.run(t)
+					}
+				}
 			},
 		})
 
@@ -793,7 +852,7 @@ func TestVerifC20_Machine(t *testing.T) {
 			fatal(m.finalize(s, "cancel", 0, false))
 		}
 
-		labels := []string{fmt.Sprintf("subscriptions=%d", len(m.subs))}
+		labels := []string{fmt.Sprintf("subscriptions-total=%d", len(m.subs))}
 		for l := range m.labels {
 			labels = append(labels, l)
 		}
@@ -814,4 +873,82 @@ func TestVerifC20_Machine(t *testing.T) {
 		}
 		vk.Record(desc, labels, m.failed > 0 || m.stalled, func() any { return m.history() })
 	})
+}
+
+// c20Witness runs one scripted history on a fresh machine over one fixed block (namespace 1 holds
+// two blobs, namespace 3 one).
+func c20Witness(script func(m *c20Machine) error) (history string, err error) {
+	m := c20NewMachine()
+	defer m.teardown()
+	blk, err := c11BlockFromSpecs(0xC20, 1, [][]c11BlobSpec{{{NSIdx: 1, Ver: 0, Len: 700}, {NSIdx: 3, Ver: 1, Len: 30}}, {{NSIdx: 1, Ver: 1, Len: 1}}})
+	if err != nil {
+		return "", fmt.Errorf("VERIF-INFRA: %w", err)
+	}
+	m.pool = []*c11Block{blk}
+	m.next = 41
+	if err := m.start(); err != nil {
+		return "", err
+	}
+	err = script(m)
+	return m.history(), err
+}
+
+// TestVerifC20_Witnesses replays the shrunk counterexamples this check found on the pinned tree as
+// fixed histories: permanent regression cases once repaired, proof that an open known finding is
+// still present otherwise.
+func TestVerifC20_Witnesses(t *testing.T) {
+	defer vk.Flush()
+	witnesses := []struct {
+		sig    string
+		script func(m *c20Machine) error
+	}{
+		{c20SigStop, func(m *c20Machine) error {
+			// subscribe; offer(42); stop while the retrieval of 42 is parked and keeps failing
+			if err := m.subscribe(1); err != nil {
+				return err
+			}
+			if err := m.offer(0); err != nil {
+				return err
+			}
+			return m.stop(0, true)
+		}},
+		{c20SigNotFound, func(m *c20Machine) error {
+			// subscribe; offer(42); the retrieval fails with "data not found", then succeeds
+			if err := m.subscribe(1); err != nil {
+				return err
+			}
+			if err := m.offer(0); err != nil {
+				return err
+			}
+			s := m.subs[0]
+			if err := m.release(s, "notfound"); err != nil {
+				return err
+			}
+			if err := m.release(s, "ok"); err != nil {
+				return err
+			}
+			if err := m.consume(s, 1); err != nil {
+				return err
+			}
+			s.cancel()
+			return m.finalize(s, "cancel", 0, false)
+		}},
+	}
+	for _, w := range witnesses {
+		hist, err := c20Witness(w.script)
+		vk.Record("witness "+w.sig, []string{"witness"}, true, func() any { return hist })
+		switch {
+		case err == nil:
+		case strings.Contains(err.Error(), "VERIF-INFRA"):
+			t.Errorf("%v", err)
+		case vk.KnownOpen(w.sig):
+			vk.FindingPresent(w.sig, strings.SplitN(err.Error(), "\n", 2)[0])
+			t.Logf("known finding %s still present: %v", w.sig, err)
+		default:
+			if dir := os.Getenv("VERIF_REPLAY_DIR"); dir != "" {
+				_ = os.WriteFile(dir+"/witness-"+strings.ReplaceAll(w.sig, ":", "_")+".txt", []byte(err.Error()+"\n"), 0o644)
+			}
+			t.Errorf("VERIF-VIOLATION %v", err)
+		}
+	}
 }
